@@ -147,6 +147,16 @@ def run(ctx):
                     reqs.append(make_req(group, ident, k, with_git, port=bb.free_port()))
     # defaulted variables (the default must be usable by the test user): TACD_HOST defaults to the identifier, which only resolves for localhost
     reqs.append(make_req("tls-alpn-01-tacd-tcp", "localhost", 2, False, port=bb.free_port(), defaulted=("TACD_HOST",)))
+    # TACD_PORT defaulted (5001) — only when that port is free on this machine right now
+    import socket
+    probe = socket.socket()
+    try:
+        probe.bind(("127.0.0.1", 5001))
+        probe.close()
+        reqs.append(make_req("tls-alpn-01-tacd-tcp", "a.example", 2, False, port=5001, defaulted=("TACD_PORT",)))
+    except OSError:
+        probe.close()
+        res.extra["tacd_port_default_skipped"] = "port 5001 is in use"
     # TACD_HOST in the other address forms a listener accepts: IPv6 literal, host name, wildcard address
     for host in ("[::1]", "localhost", "0.0.0.0"):
         reqs.append(make_req("tls-alpn-01-tacd-tcp", "a.example", 2, False, port=bb.free_port(), host=host))
